@@ -67,3 +67,86 @@ def run_kani(crate_dir, harness, solver=None, timeout=900, extra=None):
         if ".cover." in name:
             r.covers[desc + "@" + name] = st
     return r
+
+
+def _parse_section(name, txt):
+    r = KaniResult()
+    r.output = txt
+    m = re.search(r"VERIFICATION:-\s*(\w+)", txt)
+    r.status = m.group(1) if m else "ERROR"
+    m = re.search(r"\*\* (\d+) of (\d+) failed", txt)
+    if m:
+        r.checks = int(m.group(2))
+    for blk in re.finditer(r"Check \d+: (\S+)\n\s+- Status: (\w+)\n\s+- Description: \"([^\"]*)\"", txt):
+        cname, st, desc = blk.group(1), blk.group(2), blk.group(3)
+        if st == "FAILURE":
+            r.failed_checks.append(f"{cname}: {desc}")
+        if ".cover." in cname:
+            r.covers[desc + "@" + cname] = st
+    m = re.search(r"Verification Time: ([0-9.]+)s", txt)
+    if m:
+        r.wall_s = float(m.group(1))
+    return r
+
+
+def run_kani_multi(crate_dir, harnesses, jobs=4, timeout=1800, solver=None, extra=None):
+    """One `cargo kani -j` invocation for several harnesses (separate invocations would race on the target directory)."""
+    env = dict(os.environ)
+    env["CARGO_NET_OFFLINE"] = "true"
+    env["CARGO_TARGET_DIR"] = os.path.join(vxlib.VERIF, ".cache", "kani-target", os.path.basename(crate_dir))
+    cmd = ["cargo", "kani", "-j", str(jobs), "--output-format", "terse"]
+    for h in harnesses:
+        cmd += ["--harness", h]
+    if solver:
+        cmd += ["--solver", solver]
+    if extra:
+        cmd += extra
+    t0 = time.time()
+    import signal
+    proc = subprocess.Popen(cmd, cwd=crate_dir, stdout=subprocess.PIPE, stderr=subprocess.STDOUT, text=True, env=env, start_new_session=True)
+    try:
+        out, _ = proc.communicate(timeout=timeout)
+        timed_out = False
+    except subprocess.TimeoutExpired:
+        try:
+            os.killpg(proc.pid, signal.SIGKILL)
+        except Exception:
+            pass
+        out, _ = proc.communicate()
+        timed_out = True
+    wall = time.time() - t0
+    thread_of = {}
+    for m in re.finditer(r"Thread (\d+): Checking harness (\S+?)\.\.\.", out):
+        thread_of[m.group(1)] = m.group(2).split("::")[-1]
+    res = {}
+    parts = re.split(r"(?m)^Thread (\d+): \n", out)
+    # parts = [pre, tid, text, tid, text, ...]
+    for i in range(1, len(parts) - 1, 2):
+        tid, txt = parts[i], parts[i + 1]
+        name = thread_of.get(tid)
+        if not name:
+            continue
+        r = KaniResult()
+        r.output = txt[:4000]
+        m = re.search(r"VERIFICATION:-\s*(\w+)", txt)
+        r.status = m.group(1) if m else "ERROR"
+        m = re.search(r"\*\* (\d+) of (\d+) failed", txt)
+        if m:
+            r.checks = int(m.group(2))
+        for fm in re.finditer(r"Failed Checks: (.*)", txt):
+            r.failed_checks.append(fm.group(1).strip().strip('"'))
+        m = re.search(r"\*\* (\d+) of (\d+) cover properties satisfied", txt)
+        if m:
+            r.covers = {f"cover{k}": ("SATISFIED" if k < int(m.group(1)) else "UNSATISFIED") for k in range(int(m.group(2)))}
+        m = re.search(r"Verification Time: ([0-9.]+)s", txt)
+        if m:
+            r.wall_s = float(m.group(1))
+        res[name] = r
+    for h in harnesses:
+        if h not in res:
+            r = KaniResult()
+            r.status = "TIMEOUT" if timed_out else "ERROR"
+            r.output = out[-3000:]
+            res[h] = r
+        res[h].cmd = " ".join(cmd)
+    return res, wall, out
